@@ -26,7 +26,10 @@ INCLUDE_TRUNCATED = True    # present truncated buffers to abi_decode (see notes
 
 def report(ctx, rej, failures):
     for f in failures:
-        ctx.report("%s:%s" % (f["kind"], f["pkg"]), "%s of a generated package of valid programs: %s" % (f["kind"], f["detail"][:300]), f)
+        # key = kind + profile + the first line of the diagnostic (the mechanism), not the package number
+        msg = abigen.re.sub(r"\s+", " ", f["detail"].split("|", 1)[-1].strip())[:140]
+        ctx.report("%s:%s:%s" % (f["kind"], f.get("profile", ""), msg),
+                   "%s of a generated package of valid programs (%s): %s" % (f["kind"], f["pkg"], f["detail"][:300]), f)
     trunc = []
     for rj in rej:
         r = rj["rec"]
